@@ -11,7 +11,12 @@ from .gate import GateStatement
 from .gatedef import GateDefinition, AbstractGate
 from .circuit import Circuit, normalize_native_gates
 from .parameter import Parameter
-from .block import BlockStatement, LoopStatement, UnscheduledBlockStatement
+from .block import (
+    BlockStatement,
+    LoopStatement,
+    UnscheduledBlockStatement,
+    validate_iterations,
+)
 from .branch import BranchStatement, CaseStatement
 from .algorithm.visitor import Visitor
 from .usepulses import UsePulsesStatement
@@ -310,7 +315,8 @@ class Builder:
 
     def build_loop(self, sexpression, context, gate_context):
         count, block = sexpression.args
-        built_count = self.build(count, context, gate_context)
+        built_count = as_integer(self.build(count, context, gate_context))
+        validate_iterations(built_count, "loop")
         built_block = self.build(block, context, gate_context)
         return LoopStatement(built_count, built_block)
 
@@ -341,7 +347,8 @@ class Builder:
             if count == "" or count is None:
                 built_count = 1
             else:
-                built_count = self.build(count, context, gate_context)
+                built_count = as_integer(self.build(count, context, gate_context))
+                validate_iterations(built_count, "subcircuit")
         return BlockStatement(
             statements=statements, subcircuit=True, iterations=built_count
         )
